@@ -441,6 +441,27 @@ def _cursor_rule(run, rule, f, call, cnt, env):
     if unknown or nested:
         run.broken.append("decode_dispatch_data: the packed-offsets cursor is advanced in a way the rule does not model (%s)" % astq.text((unknown + nested)[0])[:60])
         return
+    # the packed offsets share a union with the v-tables the decoder expands IN PLACE: they are read before that expansion starts
+    from . import c13
+    try:
+        cloop, _ = c13.decoder_class_loop(f)
+    except common.AnalysisBroken:
+        cloop = None
+    if cloop is not None:
+        top = f["body"].get("c") or []
+        def top_index(n):
+            for k, st in enumerate(top):
+                if any(x is n for x in astq.walk(st)):
+                    return k
+            return None
+        ic, il = top_index(call), top_index(cloop)
+        if ic is None or il is None:
+            run.broken.append("decode_dispatch_data: position of the offsets copy / the in-place expansion not found")
+        else:
+            okp = ic < il
+            run.instance(rule, "decode_dispatch_data: the packed offsets are copied out before the v-tables are expanded in place over them", (f["file"], call["l"]), ok=okp)
+            if not okp:
+                run.violation(rule, "decode_dispatch_data|offsets-after-expansion", "the slots and strides are copied from the encoded area after the v-tables have been expanded in place over it (the two share a union): the methods receive overwritten words as offsets", (f["file"], call["l"]))
     total = {k: v for k, v in total.items() if v}
     ok = total == {k: v for k, v in (cnt or {}).items() if v}
     run.instance(rule, "decode_dispatch_data: the packed-offsets cursor advances by the number of cells copied (per method)", (f["file"], call["l"]), ok=ok, detail={"copied": astq.aff_show(cnt or {}), "advance": astq.aff_show(total)})
